@@ -455,7 +455,9 @@ def run(ctx):
             agree = all(s in mset for s in iseq)
         nontrivial.add((case["test"][0], base, tuple(iseq)))
         if not agree:
-            real = [b for b in bad if classify_known(case, base, succ, b[1], b[2]) not in known]
+            # an oracle failure counts as a recorded finding only if the model predicts this very outcome
+            mpred = set(mseq)
+            real = [b for b in bad if not (classify_known(case, base, succ, b[1], b[2]) in known and norm(b[1]) in mpred)]
             if real:
                 n, o, why = real[0]
                 rep.violation("C14 violated by the implementation (and the model does not predict it): %s | case: %s" % (why, il[pos][:300]),
